@@ -9,6 +9,9 @@ PLAN = {
  'C18-le-spill-month-length': ['c18', 'c01'], 'C14-timeout-before-ready': ['c14'], 'C16-manual-equality-total': ['c16'],
  'C07-february-stale-cache': ['c07', 'c08'], 'C03-extended-offset-div-to-zero': ['c03', 'c12'], 'C20-letter-set-order': ['c20'],
  'C15-offset-string-sign': ['c15'], 'C12-extended-offset-div-to-zero': ['c12', 'c03'], 'C08-basic-keep-stale-transitions': ['c08', 'c09'],
+ 'C10b-issorted-last-pair': ['c10'], 'C06b-negative-midnight': ['c06'], 'C09b-stale-cache-after-out-of-range': ['c09', 'c08'],
+ 'C15b-zoned-exact-length': ['c15'], 'C02b-prior-rule-same-year': ['c02', 'c20'], 'C12b-basic-at-minute-dropped': ['c12', 'c02'],
+ 'C05b-same-zone-compare-local': ['c05'], 'C20b-basic-generator-minute-dropped': ['c20', 'c03', 'c12'],
  'C11-registry-sorted-by-symbol': ['c03', 'c11'], 'C09-transition-pool-6': ['c09', 'c01'], 'C04-cpp-window-13-months': ['c04', 'c01'],
 }
 sel = sys.argv[1:]
